@@ -109,7 +109,10 @@ def check_config(ctx, F, tag):
         if name in OWNED:
             frp = [s for s in sites if s["kind"] == "from_raw_parts"]
             if len(frp) != 1:
-                raise Undecided("%s::new: expected one from_raw_parts" % name)
+                # the view is carved some other way (a constructor that delegates to another view's constructor): not a shape
+                # the formula comparison reads; the delegate's own obligations stand
+                ctx.ob("C13.R2.length-formulas-agree", name + tag, where, None, "formula-agreement", "%d from_raw_parts calls in %s::new: carved through another constructor" % (len(frp), name))
+                continue
             # run the R1 pass again to obtain the guard term
             facts = mapped.view_facts(b, frp[0]["block"])
             n = strip_casts(frp[0]["count"])
